@@ -7,6 +7,7 @@ close events, and a census of threads and sockets is taken after stop() has retu
 """
 from __future__ import annotations
 
+import os
 import random
 import struct
 import threading
@@ -142,6 +143,8 @@ class Case:
             reacted = set()
             newcomer = None
             newcomer_frames = 0
+            stuck = 0
+            io_blocked = False
             it = 0
             while th.is_alive() and it < spec["wait_timeout"] + 40:
                 it += 1
@@ -149,10 +152,24 @@ class Case:
                     time.sleep(0.002)
                     continue
                 try:
+                    if not h.wait_parked(3):
+                        raise RuntimeError("io thread ended")
                     h.tick()
                     h.wait_workers_idle(1)
+                    stuck = 0
                 except Exception:
-                    pass
+                    stuck += 1
+                    if stuck >= 2 and h.io_alive():
+                        # the I/O thread has not come back to select() for seconds: where is it?
+                        import sys as _sys
+                        import traceback as _tb
+                        fr = _sys._current_frames().get(node._connection_thread.ident)
+                        stack = [f"{os.path.basename(f.filename)}:{f.name}:{f.lineno}" for f in _tb.extract_stack(fr)[-4:]] \
+                            if fr is not None else []
+                        if stack and not stack[-1].startswith("harness.py"):
+                            self.witness("shutdown.node_thread_blocked_during_stop.io", {"stack": stack})
+                            io_blocked = True
+                            break
                 for i, sp in enumerate(self.sp):
                     if sp is None or sp.closed:
                         continue
@@ -225,6 +242,10 @@ class Case:
                 if newcomer is not None:
                     newcomer.drain()
                 h.advance(1)
+            if io_blocked:
+                # nothing more can be observed: release what can be released and leave (the worker process exits
+                # with os._exit, blocked threads do not keep it)
+                return
             th.join(15)
             if th.is_alive():
                 self.witness("shutdown.stop_did_not_return", {"iterations": it})
